@@ -70,8 +70,8 @@ tab!(q_h02tab__ttxt_k0, 4, 0, Kind::Ttxt, []);
 tab!(q_h02tab__ttxt_k1_len1, 4, 1, Kind::Ttxt, [1]);
 tab!(q_h02tab__ttxt_k1_len0, 4, 1, Kind::Ttxt, [0]);
 tab!(q_h02tab__ttxt_k2_len11, 5, 2, Kind::Ttxt, [1, 1]);
-tab!(q_h02tab__ttxt_k2_len12, 5, 2, Kind::Ttxt, [1, 2]);
-tab!(q_h02tab__ttxt_k2_len01, 5, 2, Kind::Ttxt, [0, 1]);
+tab!(t_h02tab__ttxt_k2_len12, 5, 2, Kind::Ttxt, [1, 2]);
+tab!(t_h02tab__ttxt_k2_len01, 5, 2, Kind::Ttxt, [0, 1]);
 tab!(t_h02tab__ttxt_k2_len10, 5, 2, Kind::Ttxt, [1, 0]);
 tab!(t_h02tab__ttxt_k2_len00, 5, 2, Kind::Ttxt, [0, 0]);
 tab!(t_h02tab__ttxt_k2_len22, 5, 2, Kind::Ttxt, [2, 2]);
